@@ -18,15 +18,39 @@ pub mod c15;
 
 pub mod c16;
 pub mod c17;
+pub mod c18;
 pub mod entries;
 pub mod entries18;
 pub mod mutate;
 pub mod robust;
 
 pub fn all() -> Vec<Property> {
-    vec![c01::property(), c02::property(), c03::property(), c04::property(), c05::property(), c06::property(), c07::property(), c08::property(), c09::property(), c10::property(), c11::property(), c12::property(), c13::property(), c14::property(), c15::property(), c16::property(), c17::property()]
+    vec![c01::property(), c02::property(), c03::property(), c04::property(), c05::property(), c06::property(), c07::property(), c08::property(), c09::property(), c10::property(), c11::property(), c12::property(), c13::property(), c14::property(), c15::property(), c16::property(), c17::property(), c18::property()]
 }
 
-pub fn extra_command(_cmd: &str, _args: &[String]) -> Option<i32> {
-    None
+pub fn extra_command(cmd: &str, _args: &[String]) -> Option<i32> {
+    match cmd {
+        // development aid: show what Physis makes of the hand-built C18 seeds
+        "debug-seeds" => {
+            let reg = c18::registry();
+            if let Some(s) = reg.get("dic", "words") {
+                println!("dic words: {:?}", physis::dic::Dictionary::from_existing(s.bytes()).map(|d| d.words));
+            }
+            if let Some(s) = reg.get("lgb", "objects") {
+                let g = physis::layer::LayerGroup::from_existing(s.bytes());
+                println!("lgb: {:?}", g.map(|g| g.chunks.iter().map(|c| (c.name.clone(), c.layers.iter().map(|l| l.objects.iter().map(|o| format!("{:?}", o.data).chars().take(40).collect::<String>()).collect::<Vec<_>>()).collect::<Vec<_>>())).collect::<Vec<_>>()));
+            }
+            if let Some(s) = reg.get("avfx", "values") {
+                println!("avfx: {}", physis::avfx::Avfx::from_existing(s.bytes()).map(|a| format!("{:?}", a).chars().take(300).collect::<String>()).unwrap_or_default());
+            }
+            if let Some(s) = reg.get("sqdb", "three") {
+                println!("sqdb: {}", physis::sqpack::SqPackDatabase::from_existing(s.bytes()).map(|a| format!("{:?}", a).len()).unwrap_or(0));
+            }
+            for s in reg.seeds.iter() {
+                println!("seed {}/{}: {} bytes", s.entry, s.name, s.bytes().len());
+            }
+            Some(0)
+        }
+        _ => None,
+    }
 }
